@@ -1,18 +1,208 @@
 import Afkak.Monitor.C06
+import AfkakProofs.BrokerClient.Frame
+import AfkakProofs.BrokerClient.SimC06
+import AfkakProofs.BrokerClient.MonC06
 /-!
 # C06 — each request completes exactly once, with the response bearing its own id
 Property theorems only; helper lemmas live in `AfkakProofs/BrokerClient/`.
+
+Architecture: `Monitor.C06.accepts` is the decidable predicate the driver evaluates on traces recorded
+from the real `_KafkaBrokerClient`.  `C06_monitor_sound` proves it of every trace of the model;
+`C06_at_most_once_of_accepted` (and `MonC06.causes`, `MonC06.minv_run`) derive the statements of the
+property from acceptance alone, so they hold of every accepted trace of the implementation too.
+"A request" is an incarnation: the `serial`-th Deferred handed out by `makeRequest`.
 -/
 namespace Afkak.Props.C06
-open Afkak.Frame Afkak.BrokerClient
+open Afkak.Frame Afkak.BrokerClient Afkak.Monitor.C06
 
-/-- placeholder while the proofs are being built -/
-theorem C06_limit_is_int32 : Afkak.Consts.kafkaMaxLength = 2^31 - 1 := by decide
+/-- The monitor that the driver evaluates on the implementation's traces accepts every trace of
+    the model: any event list, any retry policy, any broker address. -/
+theorem C06_monitor_sound (cfg : Cfg) (host port : Nat) (evs : List Ev) :
+    accepts (trace cfg (St.init host port) evs) = true := by
+  simp only [accepts]
+  rw [← abs06_init host port, sim06_run cfg _ evs (sinv_init host port)]
+  rfl
+
+/-- At most once, for ANY trace the monitor accepts (so also for an accepted trace of the
+    implementation): no serial fires twice. -/
+theorem C06_at_most_once_of_accepted (tr : List (Ev × List Ob)) (h : accepts tr = true) :
+    (firedOf tr).Nodup := by
+  simp only [accepts, Option.isSome_iff_exists] at h
+  obtain ⟨m, hm⟩ := h
+  have := (minv_run tr MSt.init m [] minv_init hm).nodup
+  simpa using this
+
+/-- Any event list fires each request's Deferred at most once. -/
+theorem C06_at_most_once (cfg : Cfg) (host port : Nat) (evs : List Ev) :
+    (firedOf (trace cfg (St.init host port) evs)).Nodup :=
+  C06_at_most_once_of_accepted _ (C06_monitor_sound cfg host port evs)
+
+/-- Exactly once: after any event list, the Deferreds handed out so far (serials `< nmake`) are
+    partitioned into those still outstanding (in the table, not cancelled) and those that have
+    fired, and the latter fired once. -/
+theorem C06_exactly_once (cfg : Cfg) (host port : Nat) (evs : List Ev) :
+    let s := run cfg (St.init host port) evs
+    let F := firedOf (trace cfg (St.init host port) evs)
+    F.Nodup ∧ (∀ k ∈ F, k < s.nmake) ∧
+    (∀ r ∈ s.reqs, r.serial < s.nmake) ∧
+    (∀ k, k < s.nmake → ((∃ r ∈ s.reqs, r.serial = k ∧ r.cancelled = false) ↔ k ∉ F)) := by
+  intro s F
+  have hrun := sim06_run cfg (St.init host port) evs (sinv_init host port)
+  rw [abs06_init] at hrun
+  have hi := minv_run _ MSt.init _ [] minv_init hrun
+  simp only [List.nil_append] at hi
+  have hsi := sinv_run cfg (St.init host port) evs (sinv_init host port)
+  refine ⟨hi.nodup, hi.firedLt, hsi.serialLt, ?_⟩
+  intro k hk
+  have hlive : ∀ l, l ∈ (abs06 s).live ↔ ∃ r ∈ s.reqs, r.cancelled = false ∧ proj r = l := by
+    intro l; simp [abs06, absLive, and_assoc]
+  constructor
+  · rintro ⟨r, hr, rfl, hc⟩ hF
+    exact hi.disj (proj r) ((hlive _).mpr ⟨r, hr, hc, rfl⟩) hF
+  · intro hF
+    rcases hi.cover k hk with ⟨l, hl, rfl⟩ | h'
+    · obtain ⟨r, hr, hc, rfl⟩ := (hlive l).mp hl
+      exact ⟨r, hr, rfl, hc⟩
+    · exact absurd h' hF
+
+/-- The firing causes are exactly: the frame carrying the request's id (with that frame's bytes),
+    its own cancel, close (or a request made after close), the write of a request that expects no
+    reply, a failed write — at every reachable state, for every event. -/
+theorem C06_causes (cfg : Cfg) (host port : Nat) (evs : List Ev) (e : Ev) :
+    let s := run cfg (St.init host port) evs
+    ∀ k i r, Ob.fire k i r ∈ (step cfg s e).2 → Cause (abs06 s) e (step cfg s e).2 k i r := by
+  intro s k i r hm
+  have hsi := sinv_run cfg (St.init host port) evs (sinv_init host port)
+  have hstep := sim06_step cfg s e hsi
+  have hx : (k, i, r) ∈ fires (step cfg s e).2 := (mem_fires _ k i r).mp hm
+  exact causes _ _ e _ hstep (k, i, r) hx
+
+/-- A Deferred fires with response bytes `b` only in the step that received the bytes completing
+    a packet `b` whose first four bytes are the request's correlation id. -/
+theorem C06_own_response (cfg : Cfg) (host port : Nat) (evs : List Ev) (e : Ev) (k : Nat) (i : Int) (b : Bytes) :
+    let s := run cfg (St.init host port) evs
+    Ob.fire k i (.ok b) ∈ (step cfg s e).2 →
+      ∃ chunk, e = .bytesIn chunk ∧ b ∈ (feed s.rbuf chunk).frames ∧ corrId b = some i ∧ s.proto.isSome = true := by
+  intro s hm
+  exact C06_causes cfg host port evs e k i (.ok b) hm
+
+
+/-- No crosstalk, for every state and every sequence of packets delivered by one `dataReceived`:
+    (1) a request none of the packets carries the id of stays in the table, untouched;
+    (2) whatever fires, fires with the bytes of a packet carrying its own id, and was in the table
+    and not cancelled — so a packet with an unknown or tombstoned id fires nothing. -/
+theorem C06_no_crosstalk (fs : List Bytes) : ∀ (s : St),
+    (∀ r ∈ s.reqs, (∀ b ∈ fs, corrId b ≠ some r.id) → r ∈ (handleFrames s fs).1.reqs) ∧
+    (∀ k i res, Ob.fire k i res ∈ (handleFrames s fs).2.1 →
+        ∃ b ∈ fs, res = .ok b ∧ corrId b = some i ∧ ∃ r ∈ s.reqs, r.serial = k ∧ r.id = i ∧ r.cancelled = false) := by
+  induction fs with
+  | nil => intro s; simp [handleFrames]
+  | cons f fs ih =>
+    intro s
+    cases hid : corrId f with
+    | none =>
+      simp only [handleFrames, hid]
+      exact ⟨fun r hr _ => hr, by simp⟩
+    | some id =>
+      simp only [handleFrames, hid]
+      obtain ⟨i1, i2⟩ := ih (handleResponse s id f).1
+      have e : (handleResponse s id f).1.reqs = s.reqs.filter (fun r => r.id != id) := rfl
+      rw [e] at i1 i2
+      refine ⟨?_, ?_⟩
+      · intro r hr hb
+        apply i1 r
+        · apply List.mem_filter.mpr ⟨hr, ?_⟩
+          have := hb f (by simp)
+          rw [hid] at this
+          simp only [ne_eq, Option.some.injEq] at this
+          simp [Ne.symm this]
+        · intro b hb'; exact hb b (by simp [hb'])
+      · intro k i res hm
+        rcases List.mem_append.mp hm with hm | hm
+        · simp only [handleResponse] at hm
+          split at hm
+          · simp only [List.mem_map, List.mem_filter] at hm
+            obtain ⟨r, ⟨hr, hc⟩, he⟩ := hm
+            simp only [Ob.fire.injEq] at he
+            obtain ⟨rfl, rfl, rfl⟩ := he
+            simp only [Bool.and_eq_true, beq_iff_eq, Bool.not_eq_eq_eq_not, Bool.not_true] at hc
+            exact ⟨f, by simp, rfl, by rw [hid, hc.1], r, hr, rfl, rfl, hc.2⟩
+          · simp at hm
+        · obtain ⟨b, hb, h1, h2, r, hr, h3, h4, h5⟩ := i2 k i res hm
+          exact ⟨b, by simp [hb], h1, h2, r, (List.mem_filter.mp hr).1, h3, h4, h5⟩
+
+/-- Reassembly: however the transport cuts the byte stream of well-formed frames (each no longer
+    than a Kafka size can say), the protocol delivers exactly those frames, in order, leaves nothing
+    buffered and does not drop the connection. -/
+theorem C06_reassembly (fs : List Bytes) (hf : ∀ f ∈ fs, f.length < 2 ^ 31) (chunks : List Bytes)
+    (hc : chunks.flatten = encodeAll fs) :
+    feedAll [] chunks = ⟨fs, [], false⟩ := by
+  have hmax : Afkak.Consts.kafkaMaxLength < 2 ^ 32 := by decide
+  have hle : ∀ f ∈ fs, f.length ≤ Afkak.Consts.kafkaMaxLength := by
+    intro f hm; have := hf f hm
+    have : (2:Nat) ^ 31 - 1 ≤ Afkak.Consts.kafkaMaxLength := by decide
+    omega
+  obtain ⟨h1, h2, h3⟩ := feedAllWith_eq_parse Afkak.Consts.kafkaMaxLength chunks [] (stuck_nil _)
+  have hp := parse_encodeAll _ hmax fs hle []
+  simp only [List.append_nil, parse_short _ [] (by simp)] at hp
+  simp only [List.nil_append, hc, hp] at h1 h2 h3
+  have h3' := h3 trivial
+  simp only [feedAll]
+  cases hfa : feedAllWith Afkak.Consts.kafkaMaxLength [] chunks
+  simp_all
+
+/-- Oversize: once the stream reaches, at a frame boundary, a length prefix that no Kafka size can
+    be (≥ 2^31, i.e. negative as an int32), the connection is terminated, and exactly the frames
+    before it have been delivered: nothing from it or after it, however the stream is cut. -/
+theorem C06_oversize (fs : List Bytes) (hf : ∀ f ∈ fs, f.length < 2 ^ 31) (a b c d : UInt8)
+    (hbig : 2 ^ 31 ≤ be32 a b c d) (tail : Bytes) (chunks : List Bytes)
+    (hc : chunks.flatten = encodeAll fs ++ a :: b :: c :: d :: tail) :
+    (feedAll [] chunks).frames = fs ∧ (feedAll [] chunks).exceeded = true := by
+  have hmax : Afkak.Consts.kafkaMaxLength < 2 ^ 32 := by decide
+  have hlim : Afkak.Consts.kafkaMaxLength < 2 ^ 31 := by decide
+  have hle : ∀ f ∈ fs, f.length ≤ Afkak.Consts.kafkaMaxLength := by
+    intro f hm; have := hf f hm
+    have : (2:Nat) ^ 31 - 1 ≤ Afkak.Consts.kafkaMaxLength := by decide
+    omega
+  obtain ⟨h1, h2, _⟩ := feedAllWith_eq_parse Afkak.Consts.kafkaMaxLength chunks [] (stuck_nil _)
+  have hp := parse_encodeAll _ hmax fs hle (a :: b :: c :: d :: tail)
+  rw [parse_cons4] at hp
+  have hgt : be32 a b c d > Afkak.Consts.kafkaMaxLength := by omega
+  simp only [hgt, if_true, List.append_nil] at hp
+  simp only [List.nil_append, hc, hp] at h1 h2
+  exact ⟨h1, h2⟩
+
+/-! Non-vacuity: a run in which Deferreds do fire — one by its own response (delivered in two
+chunks, after an unsolicited frame), one by cancel, one by close — and a late response to the
+cancelled request fires nothing. -/
+def demo : List Ev :=
+  [.make 5 true, .make 6 true, .make 7 true, .connOk, .bytesIn [0, 0, 0, 4, 0, 0, 0, 9, 0, 0, 0, 5, 0, 0],
+   .bytesIn [0, 5, 1], .cancel 6, .bytesIn [0, 0, 0, 4, 0, 0, 0, 6], .close]
+example : (trace ⟨fun _ => 1⟩ (St.init 1 9092) demo).map (·.2) =
+    [[.connect 1 9092], [], [], [.write 0 0 5, .write 0 1 6, .write 0 2 7], [.unexpected 9],
+     [.fire 0 5 (.ok [0, 0, 0, 5, 1])], [.fire 1 6 (.err .cancelled)], [], [.lose 0, .fire 2 7 (.err .clientError)]] := by
+  decide
+example : firedOf (trace ⟨fun _ => 1⟩ (St.init 1 9092) demo) = [0, 1, 2] := by decide
+
+/-! Non-vacuity (framing) -/
+example : ∃ a b c d : UInt8, 2 ^ 31 ≤ be32 a b c d := ⟨0x80, 0, 0, 0, by decide⟩
+example : feedAll [] [[0, 0], [0, 2, 7], [9, 0, 0, 0, 1], [5]] = ⟨[[7, 9], [5]], [], false⟩ := by decide
+example : [[0, 0], [0, 2, 7], [9, 0, 0, 0, 1], [5]].flatten = encodeAll [[(7 : UInt8), 9], [5]] := by decide
+example : (feedAll [] [[0, 0, 0, 1, 7, 0xff], [0xff, 0xff, 0xff, 0, 0, 0, 1, 5]]).frames = [[7]]
+    ∧ (feedAll [] [[0, 0, 0, 1, 7, 0xff], [0xff, 0xff, 0xff, 0, 0, 0, 1, 5]]).exceeded = true := by decide
 
 end Afkak.Props.C06
 
 /- OBLIGATIONS
-C06_limit_is_int32
+C06_monitor_sound
+C06_at_most_once_of_accepted
+C06_at_most_once
+C06_exactly_once
+C06_causes
+C06_own_response
+C06_no_crosstalk
+C06_reassembly
+C06_oversize
 -/
 /- OPEN_STATEMENTS
 -/
